@@ -187,7 +187,7 @@ def space(tier):
     chains = sum(8 ** k for k in range(1, lmax + 1)) + 1
     return {
         'bound': f"chain length <= {lmax} (+ALL); qq_depth_min<=3; qq_depth_max<=min+2; "
-                 f"kwargs channel and slash spelling for length<=3",
+                 f"kwargs channel, slash spelling and 'object configured with other depth settings + keywords' for length<=3",
         'states': 0, 'transitions': chains,   # prefix-tree edges; config edges are counted per case
         'caps_hit': [],
     }
@@ -216,6 +216,23 @@ def run_case(chain, cfg, channel):
     if channel == 'slash':
         txt = ''.join(SL.get(c, c) for c in chain)
         return _pytrs.Tract(txt, parse_qq=True, config=cfg_text(cfg)).qqs
+    if channel in ('stored_kw', 'stored_maxonly', 'stored_kw_list'):
+        # the object carries *other* depth settings from its config; the keywords of this parse() call are what was requested
+        mn, mx, d, bh = cfg
+        txt = ''.join(FR.get(c, c) for c in chain)
+        if d is not None:
+            stored = 'qq_depth_min.3,qq_depth_max.3' if d != 3 else 'qq_depth_min.1,qq_depth_max.1'
+        else:
+            stored = 'qq_depth.1' if mn != 1 else 'qq_depth.3'
+        kw = cfg_kwargs(cfg)
+        if channel == 'stored_maxonly':
+            kw.pop('qq_depth_min')
+        t = _pytrs.Tract(txt, trs='154n97w14', config=stored)
+        if channel == 'stored_kw_list':
+            _pytrs.TractList([t]).parse_tracts(**kw)
+        else:
+            t.parse(**kw)
+        return t.qqs
     raise ValueError(channel)
 
 
@@ -256,6 +273,11 @@ def run_unit(unit, tier):
             check_case(acc, chain, cfg, 'cfg')
             if L <= 3:
                 check_case(acc, chain, cfg, 'kw')
+                check_case(acc, chain, cfg, 'stored_kw')
+                if L <= 2:
+                    check_case(acc, chain, cfg, 'stored_kw_list')
+                if cfg[0] == 2 and cfg[1] is not None:     # 2 is the default minimum: giving only the maximum requests the same
+                    check_case(acc, chain, cfg, 'stored_maxonly')
                 if chain != ('ALL',):
                     check_case(acc, chain, cfg, 'slash')
     return acc.result()
